@@ -304,6 +304,11 @@ pub fn run(ctx: &Ctx, rep: &mut Report) {
                     cases.push(Case { kind: kind.clone(), left: 0, right: 0, cost: 100, pos: missing_pos.clone(), pos_exists: false, user_pos: up, slot: 1 });
                 }
             }
+            // "*" is an ordinary component: 名詞,*,*,*,*,* does not exist just because 名詞,普通名詞,一般,*,*,* does
+            let star_pos = pos([pool[0][0].as_str(), "*", "*", "*", "*", "*"]);
+            for up in [None, Some("allow"), Some("forbid")] {
+                cases.push(Case { kind: kind.clone(), left: 0, right: 0, cost: 100, pos: star_pos.clone(), pos_exists: false, user_pos: up, slot: 0 });
+            }
             for (exists, p) in [(true, pool[1].clone()), (false, missing_pos.clone())] {
                 for up in [None, Some("allow"), Some("forbid")] {
                     cases.push(Case { kind: kind.clone(), left: 0, right: 0, cost: 100, pos: p.clone(), pos_exists: exists, user_pos: up, slot: 0 });
